@@ -196,7 +196,7 @@ class Universe(object):
         i = self.k
         self.k += 1
         nl = self.label_of(node)
-        if isinstance(arg, tuple):
+        if type(arg) is tuple:   # (a node may itself be a tuple: only the plain tuple of the children hooks is a sequence)
             al = tuple(self.label_of(x) for x in arg)
         else:
             al = self.label_of(arg)
